@@ -110,7 +110,8 @@ def ivp_callable(cx):
     def method(fcn, ts_, y0_, params, **kw):
         rec["calls"].append({"grad": torch.is_grad_enabled(), "kw": dict(kw), "nparams": len(params)})
         return rk4_ivp(fcn, ts_, y0_, params)
-    f = lambda t, y, a_: -a_ * y * y + t
+    # linear in y: no finite-time blow-up for any seeded concrete input (y' = -a y^2 + t overflowed for a=2, y0=-1.5)
+    f = lambda t, y, a_: -a_ * y + t * a_
     y1 = solve_ivp(f, ts, y0, params=(a,), method=method, myopt=1)
     y2 = solve_ivp(f, ts, y0, params=(a,), method="rk4")
     cx.claim_true("callable: forward call with grad disabled and the caller's option",
